@@ -1051,9 +1051,9 @@ def run(ctx, part):
         for f in flds:
             install(R, f)
             F = Field(ctx, R, f[0])
-            ctx.note("primes", {f[0]: hx(R.p)})
-            ctx.note("representation", {f[0]: "montgomery" if F.monty else "plain"})
-            ctx.note("sparse_form_reduction", {f[0]: bool(F.sps_ok)})
+            ctx.info.setdefault("primes", {})[f[0]] = hx(R.p)
+            ctx.info.setdefault("representation", {})[f[0]] = "montgomery" if F.monty else "plain"
+            ctx.info.setdefault("sparse_form_reduction_tested", {})[f[0]] = bool(F.sps_ok)
             F.directed()
             F.random(per)
             absent |= F.fn_absent
